@@ -501,8 +501,12 @@ func conclude(spec *Spec, m *Merged, tier string, seed uint64, wall time.Duratio
 	if len(exh) == len(spec.Families) && len(exh) > 0 {
 		exhaustive = true
 	}
+	evals := m.Cases
+	if spec.EvalCounter != "" {
+		evals = m.Counters[spec.EvalCounter]
+	}
 	cov := map[string]any{
-		"evaluations":         m.Cases,
+		"evaluations":         evals,
 		"distinct_nontrivial": len(m.Distinct),
 		"rule":                spec.Rule,
 		"samples":             m.Samples,
